@@ -33,6 +33,13 @@ for line in (V / 'properties.jsonl').read_text().splitlines():
     extra = SHAPELY if pid in ('C04', 'C05') else ''
     if rnd == '5':
         extra += '\nIn this round avoid memoisation / stale-cache ideas and anything similar to the list above. Prefer: an error/exception path that leaves something half-done or reports the wrong thing; a numerical slip (precision, dtype, unit, sign, rounding direction, degrees vs radians, inclusive vs exclusive) confined to one branch or one range of values; an argument order or default-value change that only matters for a non-default call; a condition that is right for scalars but wrong for arrays (or the reverse).\n'
+    elif rnd == '7':
+        extra += ('\nIn this round avoid memoisation / stale-cache ideas, dtype slips, and anything similar to the list above. Prefer: aliasing (a returned object '
+                  'shares mutable state with an internal structure, with an argument, or with a previously returned object); a relation the statement spells out '
+                  '(symmetry, invariance, additivity, idempotence, "same result when ...") broken only for some inputs; sizes that cross an internal block, chunk or '
+                  'buffer boundary (hundreds of items, capacity doubling, page sizes); calendar and clock corner cases (year boundary, leap day, DST change, midnight, '
+                  'week wrap); scalar-versus-sequence and empty-versus-None distinctions in optional arguments; behaviour promised in a docstring of the anchored '
+                  'code but not restated in the property text; the second of two sibling functions that must stay in step with the first.\n')
     elif rnd == '6':
         extra += ('\nIn this round avoid memoisation / stale-cache ideas, dtype slips and anything similar to the list above. First go through the '
                   'property statement clause by clause, note which clauses the earlier ideas already broke, and aim at a clause or a code path none of them touches. '
